@@ -42,6 +42,7 @@ type gGrant struct {
 	ats       []string
 	redeemed  bool
 	scopes    []string // granted
+	asked     []string // requested at the authorization endpoint
 	hybridAT  string
 	hasOpenID bool
 }
@@ -397,8 +398,12 @@ func (g *gen) authorize() {
 			redirect = c.redirects[0]
 		}
 	}
-	gs := pickN(r, scopes, 90)
-	ga := pickN(r, aud, 90)
+	share := 90
+	if g.bias == "C09" || g.bias == "C12" {
+		share = 70 // more partial consents: what was requested and what was granted differ more often
+	}
+	gs := pickN(r, scopes, share)
+	ga := pickN(r, aud, share)
 	sub := []string{"alice", "bob", "alice", ""}[r.Intn(4)]
 	challenge, method, verifier := "", "", ""
 	switch r.Intn(7) {
@@ -447,7 +452,7 @@ func (g *gen) authorize() {
 	}
 	obs := g.op(line)
 	if m := reAuthz.FindStringSubmatch(obs); m != nil {
-		gr := &gGrant{client: c.id, redirect: redirect, verifier: verifier, method: method, scopes: gs, hasOpenID: hasOpenid}
+		gr := &gGrant{client: c.id, redirect: redirect, verifier: verifier, method: method, scopes: gs, asked: scopes, hasOpenID: hasOpenid}
 		if m[1] != "?" {
 			gr.code = m[1]
 			g.tokens = append(g.tokens, m[1])
@@ -500,6 +505,15 @@ func (g *gen) redeem(gr *gGrant, kind int) {
 		client = g.otherClient(gr.client).id
 	case 2: // different redirect_uri
 		redirect = nearMissRedirect(r, gr.redirect)
+		if c := g.client(gr.client); c != nil && len(c.redirects) > 1 && r.Intn(3) == 0 {
+			// another URI the client has registered, but not the one the code is bound to
+			for _, o := range c.redirects {
+				if o != gr.redirect && gr.redirect != "" {
+					redirect = o
+					break
+				}
+			}
+		}
 	case 3: // wrong verifier variants
 		verifier = []string{"", verifiers[(r.Intn(2)+1)%3] + "x", "short", strings.Repeat("v", 129), "has space aaaaaaaaaaaaaaaaaaaaaaaaaaaaaaaaaaaaaaaaaaaaaaaa", gr.verifier + "x", "H(" + gr.verifier + ")"}[r.Intn(7)]
 	case 4: // mutated code
@@ -652,13 +666,51 @@ func (g *gen) introspect(tok string) {
 	r := g.r
 	hint := []string{"", "access_token", "refresh_token", "bogus"}[r.Intn(4)]
 	var scopes []string
-	switch r.Intn(6) {
+	pick := r.Intn(6)
+	if g.bias == "C09" && r.Bool() {
+		pick = 3
+	}
+	if pick >= 3 {
+		// a scope the token's authorization asked for but was not granted (the token must not pass for it)
+		base, _, _ := strings.Cut(tok, "~")
+		for _, gr := range g.grants {
+			mine := gr.hybridAT == base
+			for _, t := range gr.ats {
+				mine = mine || t == base
+			}
+			for _, t := range gr.rts {
+				mine = mine || t == base
+			}
+			if !mine {
+				continue
+			}
+			for _, a := range gr.asked {
+				granted := false
+				for _, x := range gr.scopes {
+					granted = granted || x == a
+				}
+				if !granted && a != "not-allowed" {
+					scopes = []string{a}
+					pick = 6 // (keeps this choice)
+				}
+			}
+			break
+		}
+	}
+	switch pick {
 	case 0:
 		scopes = []string{"a"}
 	case 1:
 		scopes = []string{"b.x", ""}
 	case 2:
 		scopes = []string{"admin"}
+	case 3:
+		// one or two of the scopes clients ask for: some were requested but not granted, some granted
+		pool := []string{"offline", "openid", "a", "b.c", "rt", "offline_access", "b.x"}
+		scopes = []string{pool[r.Intn(len(pool))]}
+		if r.Bool() {
+			scopes = append(scopes, pool[r.Intn(len(pool))])
+		}
 	}
 	if r.Intn(3) == 0 || (g.bias == "C09" && r.Bool()) {
 		// through the HTTP endpoint: who is asking?
